@@ -407,6 +407,34 @@ def run(ck, P):
           "m_thpool_new creates workers before it marks the pool as started: when the k-th pthread_create fails, m_thpool_free skips wait_pool and "
           "destroys the mutex, the condition variable and the pool under the k-1 workers that are already running")
 
+    # a thread is on the list exactly when it exists: the handle goes into pool->threads only after pthread_create succeeded
+    at = fns["add_threads"]
+    ck.analysed(at)
+    ins = [e for e in at.calls("m_list_insert") if S(e.args[0]) == "pool->threads"]
+    crt = [e for e in at.events() if e.kind in ("assign", "decl") and e.rhs is not None and strip(e.rhs).get("callee") == "pthread_create"]
+    okin = bool(ins) and len(crt) == 1
+    if okin:
+        rvn = S(crt[0].lhs)
+        okin = all(at.ev_dominates(crt[0], e) and (has(X.facts(at, e), rvn, False) or has(X.facts(at, e), "(%s == 0)" % rvn)) for e in ins)
+    ck.ob("C06.4-HANDOFF", at.site("listed only if created"), okin,
+          "a thread handle is put on pool->threads only under a successful pthread_create" if okin else
+          "add_threads lists a thread handle that pthread_create may not have filled in: after a failed creation the pool counts a worker that does not exist "
+          "(a lazy pool never creates the real one, accepted tasks wait for ever) and wait_pool joins a bogus handle")
+    # the configured bound is kept as given: no implicit truncation on its way into the pool
+    from props.common import narrowing_casts
+    tnf = fns["m_thpool_new"]
+    mts = [e for e in tnf.events() if e.kind == "assign" and S(e.lhs) == "pool->max_threads"]
+    nar = [c for e in mts for c in narrowing_casts(e.e["r"])]
+    ck.ob("C06.4-HANDOFF", tnf.site("max_threads not truncated"), bool(mts) and not nar,
+          "pool->max_threads takes thread_count without losing bits" if mts and not nar else
+          "pool->max_threads = %s converts '%s' to '%s': a requested size that does not fit (e.g. 256) silently becomes another bound (0: tasks are accepted and "
+          "never run)" % ((nar[0][2], nar[0][0], nar[0][1]) if nar else ("?", "?", "?")))
+
+    ck.rule("C06.6-FLAG-BITS", "R-FLAG-BITS: pool flavours and initialisation stages are single distinct bits", floor=2)
+    from props.flags import flag_bits
+    flag_bits(ck, P, "C06.6-FLAG-BITS", "m_thpool_flags", "Lib/thpool")
+    flag_bits(ck, P, "C06.6-FLAG-BITS", "thpool_inited_t", "Lib/thpool")
+
     ck.not_decided += ["absence of deadlock / lost wake-ups over all interleavings (1-3 are the necessary conditions)",
                        "'returns only after every accepted task completed' as a liveness statement", "effect of lazy creation on parallelism"]
     ck.assumptions.append("m_thpool_free is not called concurrently with submitters (API contract); pthread primitives behave per POSIX")
